@@ -73,3 +73,20 @@ Definition rcmp_tol (a b : rate) : bool :=
   | None, None => true
   | _, _ => false
   end.
+Definition c05_q_metrics : list (cm2 -> Q) := [tp; tn; fp; fn; p; n; top; ton].
+Definition c05_r_metrics : list (cm2 -> rate) :=
+  [tpr; tnr; fpr; fnr; topr; tonr; ppv; npv; fdr; for_; accuracy; error_rate].
+(* everything observable on one (unstacked) multiclass matrix: the one-vs-all matrices cell by cell, the per-class
+   counts (exact), the per-class rates, accuracy / error_rate / pop *)
+Definition c05_check_matrix (M : mat) (N : nat) (ova : list cm2) (qs : list (list Q)) (rs : list (list rate))
+    (acc err : rate) (popv : Q) : bool :=
+  let o := one_vs_all M N in
+  list_eqb cm2_eqb o ova &&
+  all2 (fun f e => list_eqb Qeqb (map f o) e) c05_q_metrics qs &&
+  all2 (fun f e => all2 rcmp_tol (map f o) e) c05_r_metrics rs &&
+  rcmp_tol (accuracyN M) acc && rcmp_tol (error_rateN M) err && Qeqb (popN M) popv.
+Definition c05_check_dict {A} (cmp : A -> A -> bool) (r : result A) (items : list (cls * A)) : bool :=
+  match r with
+  | AsDict d => all2 (fun kv e => Z.eqb (fst kv) (fst e) && cmp (snd kv) (snd e)) d items
+  | _ => false
+  end.
